@@ -77,6 +77,8 @@ type Options struct {
 	BeaconStartID uint64
 	Whitelist  []int
 	ExtraDenoms []string // further denominations in the genesis supply (held by account 0)
+	GenesisPOs     []enttypes.EnterpriseUndPurchaseOrder // purchase orders present in the genesis document
+	ExtraWhitelist []string
 	// node-local configuration (must not influence consensus results)
 	BaseAppOpts []func(*baseapp.BaseApp)
 	AppOpts     map[string]interface{}
@@ -220,6 +222,8 @@ func GenesisState(a *app.App, o Options, accts []Acct) []byte {
 	for _, i := range o.Whitelist {
 		eg.Whitelist = append(eg.Whitelist, accts[i].Addr.String())
 	}
+	eg.Whitelist = append(eg.Whitelist, o.ExtraWhitelist...)
+	eg.PurchaseOrders = append(eg.PurchaseOrders, o.GenesisPOs...)
 	gs[enttypes.ModuleName] = cdc.MustMarshalJSON(eg)
 	wg := wrkchaintypes.DefaultGenesisState()
 	wg.Params = o.Wrk
